@@ -4,6 +4,7 @@ use vstd::std_specs::hash::*;
 use std::collections::HashSet;
 use std::marker::PhantomData;
 verus! {
+//@ include units/common/float.inc.rs
 // =====================================================================================================
 // SPEC: what an ordering must satisfy (from the property statement)
 // =====================================================================================================
